@@ -227,13 +227,18 @@ pub fn hist_digest(h: &Hist) -> u64 {
 /// C07 (c): the process's first calls raced by real threads on the *unhooked* crate (real
 /// std::sync::OnceLock); run under Miri (whose scheduler is seeded) and natively.
 /// Returns Err(description) if any task's result differs from the sequential one.
-pub fn race(seed: u64, threads: usize, ops_per_thread: usize) -> Result<(u64, Vec<Value>), String> {
+/// `fresh`: the main thread does not touch the library before the threads start (no pre-fed shared generators), and
+/// every op of every thread is a generator run -- lazily built state is then first touched by racing threads.
+pub fn race(seed: u64, threads: usize, ops_per_thread: usize, fresh: bool) -> Result<(u64, Vec<Value>), String> {
     let mut r = Rng::new(mix(seed, tag_of("c07race"), 0));
     let mut per: Vec<Vec<WOp>> = Vec::new();
     for _ in 0..threads {
         let mut ops = Vec::new();
         for _ in 0..ops_per_thread {
             let mut op = draw_op(&mut r);
+            if fresh {
+                op = WOp::Gen { v: r.below(5) as u8, data: crate::data::DataDesc::Random { seed: r.next_u64(), len: r.range(50, 160) as usize }, cut: r.below(50) as u32, o: 28 | r.below(4) as u8 };
+            }
             if let WOp::Gen { v, o, .. } = &op {
                 op = WOp::Gen { v: *v, data: crate::data::DataDesc::Random { seed: r.next_u64(), len: r.range(50, 160) as usize }, cut: 0, o: *o | 28 };
             }
@@ -241,8 +246,10 @@ pub fn race(seed: u64, threads: usize, ops_per_thread: usize) -> Result<(u64, Ve
         }
         per.push(ops);
     }
-    let shared = crate::workload::Shared::new(r.next_u64());
-    let shops: Vec<Vec<(u8, u8)>> = (0..threads).map(|_| (0..2).map(|_| (r.below(3) as u8, if r.chance(1, 2) { 30 } else { r.below(32) as u8 })).collect()).collect();
+    let shared_seed = r.next_u64();
+    let shops: Vec<Vec<(u8, u8)>> = (0..threads).map(|_| (0..if fresh { 0 } else { 2 }).map(|_| (r.below(3) as u8, if r.chance(1, 2) { 30 } else { r.below(32) as u8 })).collect()).collect();
+    let shared_early = if fresh { None } else { Some(crate::workload::Shared::new(shared_seed)) };
+    let shared_ref = shared_early.as_ref();
     let barrier = std::sync::Barrier::new(threads);
     let got: Vec<Vec<String>> = std::thread::scope(|sc| {
         let hs: Vec<_> = per
@@ -250,11 +257,11 @@ pub fn race(seed: u64, threads: usize, ops_per_thread: usize) -> Result<(u64, Ve
             .zip(shops.iter())
             .map(|(ops, so)| {
                 let b = &barrier;
-                let sh = &shared;
+                let sh = shared_ref;
                 sc.spawn(move || {
                     b.wait();
                     // concurrent finalize calls on generators shared by all threads, then the thread's own first calls
-                    let mut out: Vec<String> = so.iter().map(|(w, o)| sh.finalize(*w, *o)).collect();
+                    let mut out: Vec<String> = so.iter().map(|(w, o)| sh.expect("shared generators").finalize(*w, *o)).collect();
                     out.extend(ops.iter().map(exec_op));
                     out
                 })
@@ -265,7 +272,7 @@ pub fn race(seed: u64, threads: usize, ops_per_thread: usize) -> Result<(u64, Ve
     let mut f = Fnv::new();
     for (t, so) in shops.iter().enumerate() {
         for (i, (w, o)) in so.iter().enumerate() {
-            let want = shared.finalize(*w, *o);
+            let want = shared_ref.expect("shared generators").finalize(*w, *o);
             if got[t][i] != want {
                 return Err(format!("thread {t} concurrent finalize #{i} of shared generator {w} (options {o}) returned `{}`, sequential `{want}`", got[t][i]));
             }
